@@ -331,6 +331,12 @@ def mon_intersect_voronoi(rng, tier):
                 res.fail('intersect weights differ from count x area ratio', dict(nrows=nr, ncols=nc, flowdir=fd, cells=cells, coarse=[gg.nrows, gg.ncols, gg.xllcorner, gg.yllcorner, csz], got=got, expected=exp))
         for npts in (1, 2, 3, 6):
             pts = [[rng.choice([-0.5, 0.5, 1.5, 2.5, 1.0, 7.0]), rng.choice([-0.5, 0.5, 1.5, 2.5, 2.0])] for _ in range(npts)]
+            if npts >= 2 and rng.random() < 0.5:
+                # several points inside the same catchment cell, a later one closer to the centre than an earlier one (dyadic offsets: exact distances)
+                cx, cy = xy[rng.randrange(len(xy))]
+                offs = [(0.375, 0.125), (0.0625, 0.0), (0.25, -0.25), (0.0, 0.0), (-0.125, 0.0625), (0.4375, 0.4375)]
+                rng.shuffle(offs)
+                pts = [[float(cx) + ox, float(cy) + oy] for ox, oy in offs[:npts]]
             res.case((nr, nc, tuple(fd), tuple(cells), tuple(map(tuple, pts))))
             w = quiet(G.voronoi, ca, np.array(pts))
             cnt = [0] * npts
